@@ -183,6 +183,27 @@ func runC08SelfKey(c *Ctx) {
 			}
 			call, ok := lk.Index.(*ssa.Call)
 			if !ok {
+				// an element of a slice into which transformed keys were collected
+				if ld, isLd := lk.Index.(*ssa.UnOp); isLd {
+					if ia, isIA := ld.X.(*ssa.IndexAddr); isIA {
+						if tc := transformedElems(ia.X, 0, map[ssa.Value]bool{}); tc != nil {
+							ext := false
+							switch m := lk.X.(type) {
+							case *ssa.TypeAssert:
+								ext = isEmptyInterface(m.X.Type())
+							case *ssa.Extract:
+								if ta, ok := m.Tuple.(*ssa.TypeAssert); ok {
+									ext = isEmptyInterface(ta.X.Type())
+								}
+							}
+							if ext {
+								k := FuncName(fn) + "|" + calleeFullName(&tc.Call) + " key into decoded data"
+								occ[k]++
+								c.bad(fmt.Sprintf("%s#%d", k, occ[k]), lk.Pos(), "a map decoded from external data is read with keys that were transformed by "+calleeFullName(&tc.Call)+" when they were collected: an entry whose key is spelled differently is not found and the zero value is used")
+							}
+						}
+					}
+				}
 				return
 			}
 			name := calleeFullName(&call.Call)
@@ -772,4 +793,39 @@ func runC16Width(c *Ctx) {
 	if n < 2 {
 		c.bad("(*Error).getIndicator|indicator", fn.Pos(), "the indicator is not built from a run of spaces and a run of ~")
 	}
+}
+
+// transformedElems: the slice value holds elements appended as strings.ToLower/ToUpper/TrimSpace(...) results.
+func transformedElems(v ssa.Value, depth int, seen map[ssa.Value]bool) *ssa.Call {
+	if depth > 8 || seen[v] {
+		return nil
+	}
+	seen[v] = true
+	switch x := v.(type) {
+	case *ssa.Phi:
+		for _, e := range x.Edges {
+			if r := transformedElems(e, depth+1, seen); r != nil {
+				return r
+			}
+		}
+	case *ssa.Call:
+		if bi, ok := x.Call.Value.(*ssa.Builtin); ok && bi.Name() == "append" {
+			if r := transformedElems(x.Call.Args[0], depth+1, seen); r != nil {
+				return r
+			}
+			if elems, ok := variadicArgs(x.Call.Args[1]); ok {
+				for _, e := range elems {
+					if ec, ok := e.(*ssa.Call); ok {
+						switch calleeFullName(&ec.Call) {
+						case "strings.ToLower", "strings.ToUpper", "strings.TrimSpace":
+							return ec
+						}
+					}
+				}
+			}
+		}
+	case *ssa.Slice:
+		return transformedElems(x.X, depth+1, seen)
+	}
+	return nil
 }
